@@ -1953,6 +1953,11 @@ func genC17(t *rapid.T) c17Case {
 			if m.Spec.ErrMissing != nil {
 				m.Spec.Stmt = rapid.Bool().Draw(t, "stmtform")
 			}
+			if m.Ignored && m.Spec.Paths[0] == "" {
+				// (what the empty path addresses under ErrOnMissingPath(false) is not a missing path for every matcher - the
+				// document root for Type, an sjson error for Any/Custom: only the strict form is asserted)
+				m.Spec.Paths[0] = missing(i)
+			}
 		case kind < 4: // wrong type (an existing null is not a string either, in JSON and in YAML; a YAML integer is not a string)
 			m.Spec = MatcherSpec{Kind: "type", Paths: []string{path}, TypeName: wrongType(node, yamlDoc)}
 			if rapid.Bool().Draw(t, "tolerantflag") {
@@ -2064,6 +2069,11 @@ func genC17(t *rapid.T) c17Case {
 }
 
 func checkC17(c c17Case) error {
+	for _, m := range c.Matchers {
+		if m.Ignored && len(m.Spec.Paths) > 0 && m.Spec.Paths[0] == "" {
+			return nil // the empty path under ErrOnMissingPath(false): not asserted (see genC17)
+		}
+	}
 	root := scratchDir()
 	defer os.RemoveAll(root)
 	spec := CfgSpec{Dir: "snaps", Filename: "f"}
